@@ -901,11 +901,39 @@ func (e Engine) Run(t *simrt.Tape, c simrt.Case, x *simrt.Ctx) *simrt.Result {
 		}
 	}
 	if len(picks) > limit {
-		for i := 0; i < limit; i++ {
-			j := i + t.Draw(len(picks)-i)
-			picks[i], picks[j] = picks[j], picks[i]
+		// two thirds of the budget for faults on operations that change the file system (where a
+		// swallowed error means an incomplete package), the rest for everything else
+		mutating := func(op string) bool {
+			switch op {
+			case "write", "mkdir", "mkdirall", "openfile", "create", "writefile", "rename", "link", "sync", "remove", "removeall", "chmod", "truncate":
+				return true
+			}
+			return false
 		}
-		picks = picks[:limit]
+		var a, b []pick
+		for _, pk := range picks {
+			if mutating(pk.st.op) && !strings.HasPrefix(pk.kind, "foreign:") {
+				a = append(a, pk)
+			} else {
+				b = append(b, pk)
+			}
+		}
+		sample := func(xs []pick, n int) []pick {
+			if len(xs) <= n {
+				return xs
+			}
+			for i := 0; i < n; i++ {
+				j := i + t.Draw(len(xs)-i)
+				xs[i], xs[j] = xs[j], xs[i]
+			}
+			return xs[:n]
+		}
+		na := limit * 2 / 3
+		if len(b) < limit-na {
+			na = limit - len(b)
+		}
+		a = sample(a, na)
+		picks = append(a, sample(b, limit-len(a))...)
 	}
 	for _, pk := range picks {
 		w := e.build(s, files)
